@@ -4,6 +4,7 @@
              n<dec> N      z<dec> Z      b0/b1 bool
              l<item,item>  list of str ("l-" = empty list)
    Trusted: this file (conversions int<->N, printing) is part of the correspondence harness. *)
+type ostr = string
 open Model
 
 let rec pos_of_int (i : int) : positive =
@@ -17,9 +18,9 @@ let int_of_z (x : z) : int = match x with Z0 -> 0 | Zpos p -> int_of_pos p | Zne
 let rec nat_of_int (i : int) : nat = if i <= 0 then O else S (nat_of_int (i - 1))
 let rec int_of_nat (x : nat) : int = match x with O -> 0 | S y -> 1 + int_of_nat y
 
-let string_of_z (x : z) : string =
+let string_of_z (x : z) : ostr =
   String.concat "" (List.map (fun c -> String.make 1 (Char.chr (int_of_n c))) (dec_of_Z x))
-let z_of_string (t : string) : z =
+let z_of_string (t : ostr) : z =
   let neg = String.length t > 0 && t.[0] = '-' in
   let digits = if neg then String.sub t 1 (String.length t - 1) else t in
   let ten = z_of_int 10 in
@@ -27,15 +28,15 @@ let z_of_string (t : string) : z =
   String.iter (fun ch -> acc := Z.add (Z.mul !acc ten) (z_of_int (Char.code ch - 48))) digits;
   if neg then Z.opp !acc else !acc
 
-let str_of_body (b : string) : n list =
+let str_of_body (b : ostr) : n list =
   if b = "" then [] else
   List.map (fun h -> n_of_int (int_of_string ("0x" ^ h))) (String.split_on_char '.' b)
-let body_of_str (s : n list) : string =
+let body_of_str (s : n list) : ostr =
   String.concat "." (List.map (fun c -> Printf.sprintf "%x" (int_of_n c)) s)
 
 type v = VS of n list | VN of n | VZ of z | VB of bool | VL of n list list
 
-let parse_v (t : string) : v =
+let parse_v (t : ostr) : v =
   let body = String.sub t 1 (String.length t - 1) in
   match t.[0] with
   | 's' -> VS (str_of_body body)
@@ -61,7 +62,56 @@ let parse_dt (s : n list) : datetime =
   | [y; m; d; h; mi; se; us] -> { dyear = y; dmonth = m; dday = d; dhour = h; dminute = mi; dsecond = se; dmicro = us }
   | _ -> failwith "bad datetime"
 
-let dispatch (f : string) (a : v list) : string =
+
+(* ---------------------------------------------------------------- programs: operations, answers, runs *)
+let pexn (e : exn) : ostr = match e with
+  | OSError n -> "eos:" ^ string_of_int (int_of_n n) | ShutilError -> "eshutil"
+  | UnicodeDecodeError -> "eude" | UnicodeEncodeError -> "euee" | ParseError -> "eparse" | ValueErrorE -> "evalue"
+  | TypeErrorE -> "etype" | IndexErrorE -> "eindex" | OverflowErrorE -> "eoverflow" | EOFError -> "eeof"
+  | KeyboardInterrupt -> "ekbd"
+let plevel l = match l with WARNING -> "W" | INFO -> "I" | DEBUG -> "D"
+let pop (o : op) : ostr = match o with
+  | Lexists p -> "lexists:" ^ ps p | Exists p -> "exists:" ^ ps p | Isdir p -> "isdir:" ^ ps p
+  | Isfile p -> "isfile:" ^ ps p | Islink p -> "islink:" ^ ps p | Ismount p -> "ismount:" ^ ps p
+  | Access p -> "access:" ^ ps p | Stat p -> "stat:" ^ ps p | Getsize p -> "getsize:" ^ ps p
+  | Realpath p -> "realpath:" ^ ps p | Abspath p -> "abspath:" ^ ps p | Listdir p -> "listdir:" ^ ps p
+  | ReadText p -> "readtext:" ^ ps p | ListMounts -> "listmounts"
+  | Makedirs (p, m) -> "makedirs:" ^ ps p ^ ":" ^ pn m | OpenExcl p -> "openexcl:" ^ ps p
+  | WriteFd b -> "write:" ^ ps b | CloseFd -> "close" | Move (a, b) -> "move:" ^ ps a ^ ":" ^ ps b
+  | Remove p -> "remove:" ^ ps p | Rmtree p -> "rmtree:" ^ ps p
+  | Now -> "now" | RandInt (a, b) -> "randint:" ^ pz a ^ ":" ^ pz b | Input p -> "input:" ^ ps p | IsAtty -> "isatty"
+  | Out (e, t) -> "out:" ^ pb e ^ ":" ^ ps t
+  | Log (lv, ex, t) -> "log:" ^ plevel lv ^ ":" ^ pb ex ^ ":" ^ ps t
+let parse_res (t : ostr) : res =
+  let body = String.sub t 1 (String.length t - 1) in
+  match t.[0] with
+  | 'u' -> RUnit
+  | 'b' -> RBool (body = "1")
+  | 's' -> RStr (str_of_body body)
+  | 'l' -> if body = "-" then RList [] else RList (List.map str_of_body (String.split_on_char ',' body))
+  | 't' -> (match String.split_on_char ',' body with
+            | [m; s] -> RStat (n_of_int (int_of_string m), n_of_int (int_of_string s))
+            | _ -> failwith "bad stat")
+  | 'z' -> RZ (z_of_string body)
+  | 'd' -> (match List.map (fun x -> n_of_int (int_of_string x)) (String.split_on_char '-' body) with
+            | [y; m; d; h; mi; se; us] -> RDate { dyear = y; dmonth = m; dday = d; dhour = h; dminute = mi; dsecond = se; dmicro = us }
+            | _ -> failwith "bad date")
+  | 'e' -> RErr (match String.split_on_char ':' body with
+                 | ["os"; n] -> OSError (n_of_int (int_of_string n))
+                 | ["shutil"] -> ShutilError | ["ude"] -> UnicodeDecodeError | ["uee"] -> UnicodeEncodeError
+                 | ["eof"] -> EOFError | ["kbd"] -> KeyboardInterrupt | ["type"] -> TypeErrorE | ["value"] -> ValueErrorE
+                 | _ -> failwith ("bad exn " ^ body))
+  | _ -> failwith ("bad answer " ^ t)
+let prun (pres : 'a -> ostr) ((tr, out) : (op * res) list * 'a outcome) : ostr =
+  let ops = String.concat ";" (List.map (fun (o, _) -> pop o) tr) in
+  let oc = match out with Done a -> "done:" ^ pres a | Uncaught e -> "uncaught:" ^ pexn e | Stuck -> "stuck" in
+  ops ^ "\t" ^ oc
+let rec pairs_of (l : n list list) : (n list * n list) list =
+  match l with k :: v :: r -> (k, v) :: pairs_of r | _ -> []
+let opt_of_str (s : n list) : n list option = if s = [] then None else Some s
+let split_answers (a : ostr list) : res list = List.map parse_res a
+
+let dispatch (f : ostr) (a : v list) : ostr =
   match f, a with
   | "basename", [VS p] -> ps (basename p)
   | "dirname", [VS p] -> ps (dirname p)
@@ -99,6 +149,10 @@ let dispatch (f : string) (a : v list) : string =
   | "parse_user_reply", [VS r] -> pb (parse_user_reply r)
   | "older_than", [VZ d; VS now; VS del] -> popt pb (older_than d (parse_dt now) (parse_dt del))
   | "dt_lt", [VS a; VS b] -> pb (dt_lt (parse_dt a) (parse_dt b))
+  | "should_skipped_by_specs", [VS p] -> pb (should_skipped_by_specs p)
+  | "path_of_backup_copy", [VS p] -> ps (path_of_backup_copy p)
+  | "create_trashinfo_basename", [VS b; VS sfx; VB ntl] -> ps (create_trashinfo_basename b sfx ntl)
+  | "home_trash_dir_path_from_env", [VL env] -> pl (home_trash_dir_path_from_env (pairs_of env))
   | _ -> failwith ("unknown function or arity: " ^ f)
 
 let () =
@@ -109,6 +163,16 @@ let () =
         try
           match String.split_on_char '\t' line with
           | [] -> "!ERR empty"
+          | "run_put" :: paths :: td :: mode :: fv :: hf :: verbose :: env :: uid :: fuel :: answers ->
+              let sv t = match parse_v t with VS x -> x | _ -> failwith "s expected" in
+              let lv t = match parse_v t with VL x -> x | _ -> failwith "l expected" in
+              let nv t = match parse_v t with VN x -> x | _ -> failwith "n expected" in
+              let bv t = match parse_v t with VB x -> x | _ -> failwith "b expected" in
+              let o = { po_paths = lv paths; po_trash_dir = opt_of_str (sv td);
+                        po_mode = (match int_of_n (nv mode) with 1 -> ModeInteractive | 2 -> ModeForce | _ -> ModeUnspecified);
+                        po_forced_volume = opt_of_str (sv fv); po_home_fallback = bv hf; po_verbose = nv verbose;
+                        po_environ = pairs_of (lv env); po_uid = nv uid; po_fuel = nat_of_int (int_of_n (nv fuel)) } in
+              prun pn (run_oracle (put_main o) (split_answers answers))
           | f :: args -> dispatch f (List.map parse_v args)
         with e -> "!ERR " ^ Printexc.to_string e in
       print_string out; print_char '\n'
